@@ -32,12 +32,12 @@ int verif_outcome;
 #include "interp_rig.h"
 
 /* the abstract peripheral: first member is the base object CoreTiming holds a pointer to */
-typedef struct { CoreTiming_Callbacks base; u64 c; u64 reload; u32 line; u64 ticks; u32 fired; u64 fire_at[C06_N + 2]; Interpreter *cpu; } abs_periph;
+typedef struct { CoreTiming_Callbacks base; u64 c; u64 reload; u32 line; u32 vaddr; bool vctx; u64 ticks; u32 fired; u64 fire_at[C06_N + 2]; Interpreter *cpu; } abs_periph;
 static void abs_tick(CoreTiming_Callbacks *self)
 {
     abs_periph *p = (abs_periph *)self;
     p->ticks++;
-    if (p->c == 0) { if (p->fired < C06_N + 2) p->fire_at[p->fired] = p->ticks; p->fired++; p->c = p->reload; Interpreter_SignalInterrupt(p->cpu, p->line); }
+    if (p->c == 0) { if (p->fired < C06_N + 2) p->fire_at[p->fired] = p->ticks; p->fired++; p->c = p->reload; if (p->line < 3) Interpreter_SignalInterrupt(p->cpu, p->line); else Interpreter_SignalVectoredInterrupt(p->cpu, p->vaddr, p->vctx); }   /* line 3 = the vectored line */
     else p->c--;
 }
 static unsigned long long abs_max_skip(const CoreTiming_Callbacks *self) { return ((const abs_periph *)self)->c; }
@@ -70,19 +70,19 @@ HARNESS(h_slicing)
     ABSMEM_SETUP();
     for (int i = 0; i < AM_PCELLS; i++) ASSUME(am_pval[i] == 0 || am_pval[i] == BRR_SELF);          /* program: nops and idle self-branches */
     ASSUME(st0.pc + C06_N + 8 < 0x40000 && st0.prpage == 0 && !st0.rep && !st0.lp);                 /* straight-line code; loops are C09 */
-    NONDET(u64, n); NONDET(u64, a); NONDET(u64, c1); NONDET(u64, c2); NONDET(u64, r1); NONDET(u64, r2); NONDET(u32, l1); NONDET(u32, l2);
+    NONDET(u64, n); NONDET(u64, a); NONDET(u64, c1); NONDET(u64, c2); NONDET(u64, r1); NONDET(u64, r2); NONDET(u32, l1); NONDET(u32, l2); NONDET(u32, va); NONDET(bool, vc); NORM_BOOL(vc); NONDET(bool, vpend); NORM_BOOL(vpend);
 #ifdef C06_A     /* case split of the CBMC obligation: budget and slice point fixed per obligation */
     ASSUME(n == C06_N && a == C06_A);
 #endif
-    ASSUME(n <= C06_N && a <= n && l1 < 3 && l2 < 3 && r1 >= 1 && r2 >= 1);
+    ASSUME(n <= C06_N && a <= n && l1 < 4 && l2 < 4 && r1 >= 1 && r2 >= 1 && va + C06_N + 8 < 0x40000);
     NONDET_ARR(bool, ipend, 3);
     /* machine A: one call */
     RegisterState sa = st0; MACHINE(ia, sa, cta, pa1, pa2);
-    pa1.c = c1; pa1.reload = r1; pa1.line = l1; pa2.c = c2; pa2.reload = r2; pa2.line = l2;
+    pa1.c = c1; pa1.reload = r1; pa1.line = l1; pa2.c = c2; pa2.reload = r2; pa2.line = l2; pa1.vaddr = pa2.vaddr = va; pa1.vctx = pa2.vctx = vc; ia.vinterrupt_pending = vpend; ia.vinterrupt_address = va; ia.vinterrupt_context_switch = vc;
     for (int i = 0; i < 3; i++) { NORM_BOOL(ipend[i]); ia.interrupt_pending.e[i] = ipend[i]; }
     /* machine B: two calls whose budgets sum to the same */
     RegisterState sb = st0; MACHINE(ib, sb, ctb, pb1, pb2);
-    pb1.c = c1; pb1.reload = r1; pb1.line = l1; pb2.c = c2; pb2.reload = r2; pb2.line = l2;
+    pb1.c = c1; pb1.reload = r1; pb1.line = l1; pb2.c = c2; pb2.reload = r2; pb2.line = l2; pb1.vaddr = pb2.vaddr = va; pb1.vctx = pb2.vctx = vc; ib.vinterrupt_pending = vpend; ib.vinterrupt_address = va; ib.vinterrupt_context_switch = vc;
     for (int i = 0; i < 3; i++) ib.interrupt_pending.e[i] = ipend[i];
     u16 dcopy[AM_CELLS]; for (int i = 0; i < AM_CELLS; i++) dcopy[i] = am_dval[i];
     Interpreter_Run(&ia, n);
@@ -94,6 +94,6 @@ HARNESS(h_slicing)
     CHECK(mem, "data memory equal");
     CHECK(periph_same(&pa1, &pb1) && periph_same(&pa2, &pb2), "peripheral time state and the ordered interrupt events (tick numbers) equal");
     CHECK(pa1.ticks == n && pa2.ticks == n, "every peripheral saw exactly n ticks: the idle fast-forward is unobservable in time");
-    CHECK(ia.interrupt_pending.e[0] == ib.interrupt_pending.e[0] && ia.interrupt_pending.e[1] == ib.interrupt_pending.e[1] && ia.interrupt_pending.e[2] == ib.interrupt_pending.e[2], "interrupt latches equal");
+    CHECK(ia.interrupt_pending.e[0] == ib.interrupt_pending.e[0] && ia.interrupt_pending.e[1] == ib.interrupt_pending.e[1] && ia.interrupt_pending.e[2] == ib.interrupt_pending.e[2] && ia.vinterrupt_pending == ib.vinterrupt_pending, "interrupt latches (three lines and the vectored line) equal");
     CANARY();
 }
